@@ -51,8 +51,14 @@ def main(argv):
     classes = mod.CLASSES
     idxs = range(ncases) if only is None else [only]
     ran = 0
+    # The wall budget is a soft limit for the load of the machine, never a verdict: on an oversubscribed machine the
+    # shard keeps going past it until every generator class had its turn in some shard (classes are dealt round-robin
+    # with the shard number as offset), bounded by 4x the budget (the driver's hard timeout is beyond that).
+    nshards = max(1, int(os.environ.get('PV_NSHARDS', '1')))
+    min_cases = min(ncases, -(-len(classes) // nshards) + 1)
     for k in idxs:
-        if only is None and time.time() - t0 > budget:
+        el = time.time() - t0
+        if only is None and el > budget and (k >= min_cases or el > 4 * budget):
             break
         cls = classes[(k + shard) % len(classes)]
         case = core.Case(pid, tier, seed, shard, k, cls)
